@@ -489,7 +489,11 @@ type runOut struct {
 	partials []obsT
 	bad      string
 	seq      []string // identity of the rows of the final result in the order they were returned
+	raw      string   // rows (as a sorted list with their counters), totals and hit counts of the final result
 }
+
+// curResolution is the time_resolution argument of the queries being executed ("" = none)
+var curResolution string
 
 // sortVariant is one way of asking for the rows: sort key, direction, ascending.  The property speaks
 // about the merged result whatever was asked for; the order of its rows is part of it.
@@ -521,6 +525,7 @@ func runOnce(resolvers *hosts.ResolverMap, q interface {
 	opts := append([]query.Option{query.WithFormat("json"), query.WithFirst(fmt.Sprint(rangeBase - 3600)), query.WithLast(fmt.Sprint(rangeBase + 86400)),
 		query.WithNumResults(1000), query.WithQueryHosts(strings.Join(names, ","))}, curVariant.opts...)
 	args := query.NewArgs(qt, "any", opts...)
+	args.TimeResolution = curResolution
 	runner := gqdist.NewQueryRunner(resolvers, q)
 	var res *results.Result
 	panicked = hx.Catch(func() {
@@ -548,6 +553,12 @@ func runOnce(resolvers *hosts.ResolverMap, q interface {
 		return
 	}
 	var bad string
+	var rawRows []string
+	for _, row := range res.Rows {
+		rawRows = append(rawRows, fmt.Sprintf("%d|%s|%s|%s|%s=%v", row.Labels.Timestamp.Unix(), row.Labels.Iface, row.Labels.Hostname, row.Labels.HostID, row.Attributes.SrcIP, row.Counters))
+	}
+	sort.Strings(rawRows)
+	out.raw = fmt.Sprintf("rows=%v totals=%v hits=%d/%d", rawRows, res.Summary.Totals, res.Summary.Hits.Total, res.Summary.Hits.Displayed)
 	for _, row := range res.Rows {
 		out.seq = append(out.seq, fmt.Sprintf("%d|%s|%s|%s|%s", row.Labels.Timestamp.Unix(), row.Labels.Iface, row.Labels.Hostname, row.Labels.HostID, row.Attributes.SrcIP))
 	}
@@ -581,7 +592,7 @@ func Replay(seed uint64, racing int, in io.Reader, out io.Writer) {
 	// results (and streaming flag): every other arrival order of the same multiset must return the same sequence
 	firstSeq := map[string][]string{}
 	firstOrder := map[string][]int{}
-	orderCmps, variantsUsed := 0, map[string]int{}
+	orderCmps, binCmps, variantsUsed := 0, 0, map[string]int{}
 	err := hx.Lines(in, func(line []byte) error {
 		if pool == nil {
 			var p poolT
@@ -696,6 +707,36 @@ func Replay(seed uint64, racing int, in io.Reader, out io.Writer) {
 				}
 			}
 		}
+		if timed && p == "" && rerr == nil && res.bad == "" && id%2 == 0 {
+			// the same query with results binned to one hour: the streaming run must end with the result of
+			// the run without streaming (rows, totals, hit counts)
+			saved := curVariant
+			curVariant, curResolution = sortVariants[0], "1h"
+			var raws [2]string
+			okBoth := true
+			for k, streaming := range []bool{false, true} {
+				rsB, namesB, errB := build()
+				if errB != nil {
+					curVariant, curResolution = saved, ""
+					return errB
+				}
+				resB, rerrB, pB := runOnce(resolvers, &orderedQuerier{results: rsB}, namesB, timed, streaming)
+				runs++
+				if pB != "" || rerrB != nil {
+					okBoth = false
+					break
+				}
+				raws[k] = resB.raw
+			}
+			curVariant, curResolution = saved, ""
+			if okBoth {
+				binCmps++
+				if raws[0] != raws[1] {
+					emit(len(order), "binned", []diff{{Cls: "streaming-differs-from-plain-when-binned", Msg: fmt.Sprintf("time_resolution 1h: without streaming %s, streaming %s", raws[0], raws[1])}},
+						"the same query with and without streaming")
+				}
+			}
+		}
 		switch {
 		case p != "":
 			emit(len(order), "ordered", []diff{{Cls: "panic", Msg: p}}, "the query runner panicked")
@@ -783,7 +824,7 @@ func Replay(seed uint64, racing int, in io.Reader, out io.Writer) {
 		hx.Die("hm-replay: %v", err)
 	}
 	o.Emit(map[string]any{"summary": true, "behaviours": n, "runs": runs, "racing_runs": races, "compares": cmps, "failed": bad,
-		"row_order_compares": orderCmps, "sort_variants": variantsUsed})
+		"row_order_compares": orderCmps, "binned_stream_vs_plain_compares": binCmps, "sort_variants": variantsUsed})
 }
 
 func init() {
